@@ -22,6 +22,8 @@ EXTENDS Integers, Sequences, FiniteSets, Json, TLC
 
 CONSTANTS W, NJobs, Pad, ReadFail, DecErr, DeferOrder, EmitSchedules
 
+PreCached == {-1, -2}      \* slabs in the read cache before the call (none of the jobs): preloading only adds
+
 Workers == 1..W
 
 (* --fair algorithm preload
@@ -32,7 +34,7 @@ variables jobs = <<>>,          \* buffered channel, capacity NJobs (never block
           done = FALSE,
           running = W,
           received = <<>>,
-          cache = {},
+          cache = PreCached,
           err = "none",
           returned = FALSE,
           sendOnClosed = FALSE, blockedSend = FALSE, doubleClose = FALSE;
@@ -127,7 +129,7 @@ Init == (* Global variables *)
         /\ done = FALSE
         /\ running = W
         /\ received = <<>>
-        /\ cache = {}
+        /\ cache = PreCached
         /\ err = "none"
         /\ returned = FALSE
         /\ sendOnClosed = FALSE
@@ -299,9 +301,9 @@ Returns == <>returned
 AllWorkersExit == <>(running = 0)
 \* the outcome is a function of the inputs on success; on failure nothing wrong is ever cached
 Outcome == returned =>
-  /\ (ReadFail = 0 /\ DecErr = 0) => (err = "none" /\ cache = 1..NJobs)
-  /\ (ReadFail \in 1..(NJobs + Pad)) => (err = "external" /\ cache = {})           \* the failing read precedes every result
-  /\ (ReadFail = 0 /\ DecErr \in 1..NJobs) => (err = "decoding" /\ cache \subseteq (1..NJobs) \ {DecErr})
+  /\ (ReadFail = 0 /\ DecErr = 0) => (err = "none" /\ cache = PreCached \cup (1..NJobs))
+  /\ (ReadFail \in 1..(NJobs + Pad)) => (err = "external" /\ cache = PreCached)           \* the failing read precedes every result
+  /\ (ReadFail = 0 /\ DecErr \in 1..NJobs) => (err = "decoding" /\ PreCached \subseteq cache /\ cache \subseteq PreCached \cup ((1..NJobs) \ {DecErr}))
 EmitAtReturn == (EmitSchedules /\ returned) =>
   PrintT(ToJson([w |-> W, n |-> NJobs, readfail |-> ReadFail, decerr |-> DecErr, order |-> received]))
 =============================================================================
